@@ -53,9 +53,15 @@ pub fn tree_params(cfg: &RepoCfg, thorough: bool) -> TreeParams {
 
 fn strategy(ctx: &Ctx) -> BoxedStrategy<Case> {
     let thorough = ctx.tier.is_thorough();
-    repo_cfg()
-        .prop_flat_map(move |cfg| {
-            let p = tree_params(&cfg, thorough);
+    (repo_cfg(), prop::option::weighted(0.015, 20i32..=22))
+        .prop_flat_map(move |(mut cfg, ultra)| {
+            let mut p = tree_params(&cfg, thorough);
+            if let (Some(l), true) = (ultra, cfg.version >= 2) {
+                // zstd's ultra levels: about a second and a gigabyte per blob and thread, so the
+                // source stays small (and `repo::ultra_gate` lets one such case run at a time)
+                cfg.compression = Some(l);
+                p = TreeParams { unit: p.unit, file_cap: p.unit.saturating_mul(6).min(60_000), max_children: 3, depth: 2 };
+            }
             (
                 Just(cfg),
                 tree(p),
@@ -321,6 +327,22 @@ pub fn run(c: &Case, ctx: &Ctx) -> Outcome {
             };
             if let Some(d) = compare(m, &g, &CmpOpts { full_meta: true, content: true }) {
                 fail!("after the second backup (default options, previous snapshot as parent) the {what} snapshot differs from its source: {d}");
+            }
+        }
+        // the second snapshot shares packs with the first one but not all of their blobs: the
+        // restore command (which reads packs in coalesced ranges) must cope with the gaps
+        if c.restore {
+            let scratch = Scratch::new("c01b");
+            let dest = scratch.path().join("dest");
+            if let Err(e) = restore_snapshot(&full, &snap2, &dest, &RestoreOptions::default().numeric_id(true)) {
+                fail!("restore of the second snapshot: {e}");
+            }
+            let fs = match walk(&dest) {
+                Ok(f) => f,
+                Err(e) => fail!("cannot walk the restored tree: {e}"),
+            };
+            if let Some(d) = compare_fs(&model2, &fs, &FsCmp { ownership: is_root(), hardlinks: true, exact_set: true }) {
+                fail!("restored tree of the second snapshot differs from the source: {d}");
             }
         }
         out = out
